@@ -50,7 +50,10 @@ def main():
         finally:
             sh("git -C /repo worktree remove --force %s" % wt)
             sh("rm -rf /verif/.work/mut_unfix_%s" % c)
-    json.dump(out, open("/verif/seeded/FIX_REGRESSIONS.json", "w"), indent=1)
+    path = "/verif/seeded/FIX_REGRESSIONS.json"
+    allres = json.load(open(path)) if os.path.exists(path) else {}
+    allres.update(out)
+    json.dump(allres, open(path, "w"), indent=1)
 
 
 if __name__ == "__main__":
